@@ -201,8 +201,11 @@ Definition pat_datum (fp : Packet) : DemuxerData :=
 Lemma pat_sec_value v : 0 <= v < 32 ->
   sec_parses (pat_sec v) (pat_section_value true false C_PSITableIDPAT v true 0 0 [(C_programNumberStart, C_pmtStartPID)]).
 Proof.
-  intros Hv. apply pat_sec_parses. unfold pat_wf, pat_entry_ok, C_PSITableIDPAT, C_programNumberStart, C_pmtStartPID.
-  cbn [fst snd length]. repeat split; try lia. repeat constructor; cbn [fst snd]; lia.
+  intros Hv.
+  assert (Hwf : pat_wf C_PSITableIDPAT v 0 0 [(C_programNumberStart, C_pmtStartPID)]).
+  { unfold pat_wf, pat_entry_ok, C_PSITableIDPAT, C_programNumberStart, C_pmtStartPID.
+    cbn [fst snd length]. repeat split; try lia. repeat constructor; cbn [fst snd]; lia. }
+  exact (pat_sec_parses true false C_PSITableIDPAT v true 0 0 [(C_programNumberStart, C_pmtStartPID)] Hwf).
 Qed.
 
 (* what the demuxer makes of a PAT packet: complete at once, parsed to the PAT, program 1 registered *)
@@ -214,7 +217,7 @@ Theorem pat_packet_demuxed pm cc v its : 0 <= v < 32 ->
   pm_after pm [pat_datum (first_packet_of (obs_pkt q))] = pm_add pm C_pmtStartPID.
 Proof.
   intros Hv He q.
-  assert (Hb : bytes_ok (pat_sec v)) by (apply spec_section_ok, pat_body_ok).
+  assert (Hb : bytes_ok (pat_sec v)) by (unfold pat_sec, spec_pat_section; apply spec_section_ok, pat_body_ok).
   destruct (table_packet_seen C_PIDPAT cc (pat_sec v) its ltac:(unfold C_PIDPAT; lia) Hb He) as (W & Hpid & Ht & Hh & k & Hpl).
   fold q in W, Hpid, Ht, Hh, Hpl.
   split; [exact W|]. split; [repeat split; assumption|]. split.
@@ -242,16 +245,16 @@ Definition stream_in_dom (e : PMTElementaryStream) : Prop :=
   exists bytes, D (PMTElementaryStream_ElementaryStreamDescriptors e) bytes.
 
 Lemma streams_xs l : Forall stream_in_dom l -> exists xs, map stream_value xs = l /\ Forall (stream_ok D) xs.
-Proof.
+Proof using. clear D_parse D_write D_nil D_size.
   induction 1 as [|e l (Ht & Hp & bytes & Hd) _ (xs & Hm & Hok)]; [exists []; split; constructor|].
   exists ((PMTElementaryStream_StreamType e, spid e, PMTElementaryStream_ElementaryStreamDescriptors e, bytes) :: xs).
   cbn [map]. split; [rewrite Hm; destruct e; reflexivity|]. constructor; [|exact Hok].
-  unfold stream_ok, st_type, st_pid, st_descs, st_bytes. cbn [fst snd]. repeat split; assumption.
+  unfold stream_ok, st_type, st_pid, st_descs, st_bytes. cbn [fst snd]. repeat split; try assumption; lia.
 Qed.
 
 Lemma fold_add_acc (ds : list Descriptor) : forall a,
   fold_left (fun k d => k + (2 + calc_descriptor_length d)) ds a = a + fold_left (fun k d => k + (2 + calc_descriptor_length d)) ds 0.
-Proof.
+Proof. clear D_parse D_write D_nil D_size.
   induction ds as [|d ds IH]; intros a; cbn [fold_left]; [lia|]. rewrite IH, (IH (0 + _)). lia.
 Qed.
 
@@ -259,22 +262,22 @@ Lemma pmt_size_acc xs : Forall (stream_ok D) xs -> forall a,
   fold_left (fun n es => fold_left (fun k d => k + (2 + calc_descriptor_length d))
                                    (PMTElementaryStream_ElementaryStreamDescriptors es) (n + 5))
             (map stream_value xs) a = a + Z.of_nat (length (flat_map stream_bytes xs)).
-Proof.
+Proof using D_size. clear D_parse D_write D_nil.
   induction 1 as [|x xs (_ & _ & Hd) _ IH]; intros a; cbn [map fold_left flat_map length]; [lia|].
   rewrite IH, app_length, stream_bytes_length. cbn [stream_value PMTElementaryStream_ElementaryStreamDescriptors].
   rewrite fold_add_acc, (D_size _ _ Hd). lia.
 Qed.
 
 Lemma pmt_size_eq xs : Forall (stream_ok D) xs -> pmt_size (map stream_value xs) = 4 + Z.of_nat (length (flat_map stream_bytes xs)).
-Proof. intros H. unfold pmt_size. apply (pmt_size_acc xs H). Qed.
+Proof using D_size. intros H. unfold pmt_size. apply (pmt_size_acc xs H). Qed.
 
 Lemma calc_pmt_len_acc xs : Forall (stream_ok D) xs -> forall a, 0 <= a ->
   a + Z.of_nat (length (flat_map stream_bytes xs)) < 65536 ->
   fold_left (fun ret es => ((ret + 5) mod 65536
                             + calc_descriptors_length (PMTElementaryStream_ElementaryStreamDescriptors es)) mod 65536)
             (map stream_value xs) a = a + Z.of_nat (length (flat_map stream_bytes xs)).
-Proof.
-  induction 1 as [|x xs (_ & _ & Hd) _ IH]; intros a Ha Hlt; cbn [map fold_left flat_map length]; [lia|].
+Proof using D_write. clear D_parse D_nil D_size.
+  induction 1 as [|x xs (_ & _ & Hd) _ IH]; intros a Ha Hlt; cbn [map fold_left flat_map length] in *; [lia|].
   rewrite app_length, stream_bytes_length in Hlt |- *.
   destruct (desc_write_premise _ _ (D_write _ _ Hd)) as (_ & Hc & _).
   cbn [stream_value PMTElementaryStream_ElementaryStreamDescriptors]. rewrite Hc.
@@ -287,13 +290,16 @@ Definition pmt_sec (pcr ver : Z) (xs : list stream) : list Z :=
 Lemma write_pmt_payload pcr v xs : Forall (stream_ok D) xs ->
   9 + Z.of_nat (length (flat_map stream_bytes xs)) + 4 < 4096 ->
   write_psi_data (psi_of_section (pmt_section_of (map stream_value xs) pcr v)) = Ok (0 :: pmt_sec pcr (v mod 256) xs).
-Proof.
+Proof using D_write D_nil. clear D_parse D_size.
   intros Hxs Hfit.
   set (d := pmt_data_of (map stream_value xs) pcr).
   assert (Hlen : calc_pmt_section_length d = 4 + Z.of_nat (length (flat_map stream_bytes xs))).
   { unfold calc_pmt_section_length, d, pmt_data_of. cbn [PMTData_ElementaryStreams PMTData_ProgramDescriptors].
     change ((4 + calc_descriptors_length []) mod 65536) with 4. apply (calc_pmt_len_acc xs Hxs); lia. }
-  pose proof (write_pmt_closed 0 0
+  assert (Hw : Forall (wstream_ok desc_bytes) xs).
+  { clear - Hxs D_write. induction Hxs as [|x xs (_ & _ & Hd) _ IH]; constructor; [apply D_write, Hd|exact IH]. }
+  assert (Hpos : calc_pmt_section_length d > 0) by (rewrite Hlen; lia).
+  exact (write_pmt_closed 0 0
     {| PSISectionHeader_PrivateBit := false; PSISectionHeader_SectionLength := calc_pmt_section_length d;
        PSISectionHeader_SectionSyntaxIndicator := true; PSISectionHeader_TableID := C_PSITableIDPMT;
        PSISectionHeader_TableType := [] |}
@@ -302,12 +308,7 @@ Proof.
        PSISectionSyntaxHeader_VersionNumber := v mod 256 |}
     {| PSISectionSyntaxData_EIT := None; PSISectionSyntaxData_NIT := None; PSISectionSyntaxData_PAT := None;
        PSISectionSyntaxData_PMT := Some d; PSISectionSyntaxData_SDT := None; PSISectionSyntaxData_TOT := None |}
-    C_programNumberStart pcr [] [] xs ltac:(lia) eq_refl) as H.
-  cbn [PSISectionHeader_SectionLength] in H. rewrite Hlen in H.
-  specialize (H ltac:(lia) eq_refl (D_write _ _ D_nil)).
-  assert (Hw : Forall (wstream_ok desc_bytes) xs).
-  { clear - Hxs D_write. induction Hxs as [|x xs (_ & _ & Hd) _ IH]; constructor; [apply D_write, Hd|exact IH]. }
-  specialize (H Hw ltac:(cbn [length]; lia)). exact H.
+    C_programNumberStart pcr [] [] xs ltac:(lia) eq_refl Hpos eq_refl (D_write _ _ D_nil) Hw ltac:(cbn [length]; lia)).
 Qed.
 
 Definition pmt_datum (fp : Packet) (streams : list PMTElementaryStream) (pcr : Z) : DemuxerData :=
@@ -322,20 +323,24 @@ Theorem pmt_packet_demuxed pm cc pcr v xs its : 0 <= v < 32 -> 0 <= pcr < 2 ^ 13
   mux_wf q /\ on_pid C_pmtStartPID (obs_pkt q) /\ is_psi_complete [obs_pkt q] = true /\
   parse_data full_parsers None pm [obs_pkt q] = Ok [pmt_datum (first_packet_of (obs_pkt q)) (map stream_value xs) pcr] /\
   pm_after pm [pmt_datum (first_packet_of (obs_pkt q)) (map stream_value xs) pcr] = pm.
-Proof.
+Proof using D_parse D_nil. clear D_write D_size.
   intros Hv Hpcr Hxs Hfit Hpm He q.
   destruct D_parse as [Dok Dinv].
+  assert (Dinv15 : forall ds bytes i r, D ds bytes -> at_ i (spec_desc_loop bytes ++ r) ->
+            parse_descriptors i = Ok (ds, mk_iter (ibs i) (ioff i + 2 + Z.of_nat (length bytes)))).
+  { intros ds bytes i r Hd Hat. apply (Dinv 15 ds bytes i r ltac:(lia) Hd). exact Hat. }
   assert (Hbody : bytes_ok (spec_pmt_body C_programNumberStart v true 0 0 pcr [] (map stream_spec xs))).
-  { rewrite pmt_body_eq. repeat first [ apply bytes_of_bits_ok | apply (streams_bytes_ok D Dok); assumption | apply Forall_app; split ].
+  { rewrite pmt_body_eq. apply Forall_app. split; [apply bytes_of_bits_ok|]. apply Forall_app. split; [apply bytes_of_bits_ok|].
+    apply Forall_app. split; [|apply (streams_bytes_ok D Dok); assumption].
     unfold spec_desc_loop. apply Forall_app. split; [apply bytes_of_bits_ok|constructor]. }
-  assert (Hb : bytes_ok (pmt_sec pcr v xs)) by (apply spec_section_ok, Hbody).
+  assert (Hb : bytes_ok (pmt_sec pcr v xs)) by (unfold pmt_sec, spec_pmt_section; apply spec_section_ok, Hbody).
   destruct (table_packet_seen C_pmtStartPID cc (pmt_sec pcr v xs) its ltac:(unfold C_pmtStartPID; lia) Hb He) as (W & Hpid & Ht & Hh & k & Hpl).
   fold q in W, Hpid, Ht, Hh, Hpl.
   assert (Hwf : pmt_wf D C_programNumberStart v 0 0 pcr [] [] xs).
   { unfold pmt_wf, C_programNumberStart. cbn [length]. repeat split; try lia; assumption. }
   split; [exact W|]. split; [repeat split; assumption|]. split.
   - apply (is_psi_complete_one _ 2 true false _ k Hpl); [lia|reflexivity|].
-    rewrite pmt_body_length. cbn [length]. lia.
+    rewrite (pmt_body_length D Dok Dinv15). cbn [length]. lia.
   - split; [|reflexivity].
     rewrite (parse_table_group pm (obs_pkt q) (pmt_sec pcr v xs) _ k Hpl (pmt_sec_parses_p D (conj Dok Dinv) true false _ _ true _ _ _ _ _ _ Hwf)).
     + rewrite Hpid. reflexivity.
